@@ -293,7 +293,8 @@ class C04(Prop):
             # remove-unused left to the tool's default: off for __init__.py and files under a .pyflyby directory
             case["filename"] = rng.choice(["/nonexistent/pkg/__init__.py", "/nonexistent/a/.pyflyby/x.py",
                                            "/nonexistent/pkg/mod.py", "/nonexistent/pkg/__init__2.py",
-                                           "/nonexistent/x.pyflyby/m.py"])
+                                           "/nonexistent/x.pyflyby/m.py", "/nonexistent/pkg/test__init__.py",
+                                           "/nonexistent/pkg/my__init__.py", "/nonexistent/__init__.py/mod.py"])
             case["flags"]["remove_unused"] = "AUTOMATIC"
         return case
 
